@@ -296,6 +296,10 @@ Definition node_reattach (k c : key) (s : st) : res st :=
     if negb (ndet n) then Internal 108            (* ValueError: only on a detached node *)
     else if key_eqb c k then Internal 124         (* CHECK (creator != i) *)
     else if negb (creator_kind_ok (fst k) (fst c)) then Internal 122   (* node_check_creator_kind_upd *)
+    else if mem_key c (rec_products k s) then Internal 126
+      (* the new creator is a recursive product of the node: the creator links become cyclic and
+         Step._flag_checks_with_products (WITH RECURSIVE ... UNION ALL) does not terminate; the
+         transaction never commits *)
     else
       let det := ndet cn in
       let s1 := upd_node k (fun n => mkNode (nk n) (Some c) det) s in
